@@ -14,6 +14,7 @@ import (
 	"os"
 	"runtime/debug"
 	"sort"
+	"strings"
 	"sync/atomic"
 
 	"github.com/elastos/Elastos.ELA/auxpow"
@@ -533,6 +534,21 @@ func sparsePatterns(n int) []uint64 {
 	return out
 }
 
+var largeOnce struct {
+	txs []interfaces.Transaction
+	ids [][32]byte
+}
+
+func largeTxs() ([]interfaces.Transaction, [][32]byte) {
+	if largeOnce.txs == nil {
+		for i := 0; i < 1024; i++ {
+			largeOnce.txs = append(largeOnce.txs, blockkit.Transfer(2000+i))
+		}
+		largeOnce.ids = blockkit.TxIDs(largeOnce.txs)
+	}
+	return largeOnce.txs, largeOnce.ids
+}
+
 func main() {
 	r := evid.Start("C08", "exploration")
 	scr := evid.Scratch("c08")
@@ -556,11 +572,14 @@ func main() {
 		var c caseT
 		sig := r.LoadReplay(&c)
 		fmt.Printf("replaying %s: %s\n", sig, c)
-		if c.N < 1 || c.N > maxN {
+		if c.N < 1 || (c.N > maxN && !strings.HasPrefix(c.F.Kind, "large:")) {
 			evid.Fatalf("replay: n out of range")
 		}
 		e.flips = 2
-		if c.F.Kind == "dup-tail" {
+		if strings.HasPrefix(c.F.Kind, "large:") {
+			ltx, lids := largeTxs()
+			e.runLarge(ltx, lids, c.N, strings.TrimPrefix(c.F.Kind, "large:"))
+		} else if c.F.Kind == "dup-tail" {
 			e.dupTail(c.N)
 		} else {
 			e.runCase(c)
@@ -586,7 +605,9 @@ func main() {
 	type job struct {
 		c     caseT
 		flips int
+		large string
 	}
+	ltx, lids := largeTxs()
 	var jobs []job
 	for n := 1; n <= maxN; n++ {
 		if n <= allUpTo {
@@ -595,25 +616,30 @@ func main() {
 				if n <= flipAllUpTo {
 					fm = 2
 				}
-				jobs = append(jobs, job{caseT{n, p, exact}, fm})
+				jobs = append(jobs, job{c: caseT{n, p, exact}, flips: fm})
 			}
 		}
 		sp := sparsePatterns(n)
 		for _, p := range sp {
 			if n > flipAllUpTo {
-				jobs = append(jobs, job{caseT{n, p, exact}, 2})
+				jobs = append(jobs, job{c: caseT{n, p, exact}, flips: 2})
 			}
 			for _, f := range menu {
 				fm := 0
 				if n <= 9 {
 					fm = 2
 				}
-				jobs = append(jobs, job{caseT{n, p, f}, fm})
+				jobs = append(jobs, job{c: caseT{n, p, f}, flips: fm})
 			}
 		}
 	}
 
 	var done int64
+	for _, n := range largeNs {
+		for _, name := range largePatterns {
+			jobs = append(jobs, job{c: caseT{N: n}, large: name})
+		}
+	}
 	var skipped int64
 	pends := make([][]pending, len(jobs))
 	par.Go(len(jobs), func(i int) {
@@ -624,7 +650,11 @@ func main() {
 		j := jobs[i]
 		w := &env{r: r, txs: e.txs, ids: e.ids, idIndex: e.idIndex, flips: j.flips}
 		w.samples.N = 0
-		w.runCase(j.c)
+		if j.large != "" {
+			w.runLarge(ltx, lids, j.c.N, j.large)
+		} else {
+			w.runCase(j.c)
+		}
 		pends[i] = w.pend
 		// merge
 		atomic.AddInt64(&e.st.cases, w.st.cases)
@@ -674,7 +704,7 @@ func main() {
 	r.Finish(evid.Coverage{
 		"evaluations":                          st.proofs + st.branches + st.hashFlips + st.flagFlips + st.countMuts + st.dupTails,
 		"distinct_nontrivial":                  e.shapes.Len(),
-		"rule":                                 fmt.Sprintf("tx counts n=1..%d; all 2^n match patterns for n<=%d, patterns of weight<=2/prefixes/suffixes/all-but-one/alternating for every n, each realised through a real bloom filter (exact filter + %d-entry menu of (elements,fprate,tweak,added datum)); every served merkle block: canonical BIP37 encoding, reference extractor, CheckMerkleBlock, GetTxMerkleBranch+GetMerkleRoot per matched tx, then corruptions: every flag bit and 7 transaction-count changes for every block; every bit of every hash for all patterns of n<=%d and for the sparse patterns of every n, one bit of every hash byte (rotating bit position) for the remaining patterns; plus the duplicated-tail twin (CVE-2012-2459 shape) of every n whose tree has an odd level. distinct_nontrivial = distinct (n, realised match pattern) pairs", maxN, allUpTo, len(menu), flipAllUpTo),
+		"rule":                                 fmt.Sprintf("tx counts n=1..%d; all 2^n match patterns for n<=%d, patterns of weight<=2/prefixes/suffixes/all-but-one/alternating for every n, each realised through a real bloom filter (exact filter + %d-entry menu of (elements,fprate,tweak,added datum)); every served merkle block: canonical BIP37 encoding, reference extractor, CheckMerkleBlock, GetTxMerkleBranch+GetMerkleRoot per matched tx, then corruptions: every flag bit and 7 transaction-count changes for every block; every bit of every hash for all patterns of n<=%d and for the sparse patterns of every n, one bit of every hash byte (rotating bit position) for the remaining patterns; plus the duplicated-tail twin (CVE-2012-2459 shape) of every n whose tree has an odd level; plus large blocks n in {255,256,257,511,512,513,1024} x 9 patterns (all, all via the match-everything filter, all-but-first/last/middle, first 256, last 256, one aligned 256-subtree, every other) with the same completeness oracles and one flipped bit per served hash. distinct_nontrivial = distinct (n, realised match pattern) pairs", maxN, allUpTo, len(menu), flipAllUpTo),
 		"exhaustive":                           skipped == 0,
 		"cases":                                st.cases,
 		"merkle_blocks":                        st.proofs,
